@@ -3444,6 +3444,8 @@ static CK_RV SymDecryptUpdate(Session* session, CK_BYTE_PTR pEncryptedData, CK_U
 		// There must always be one block left in padding mode if next operation is DecryptFinal.
 		// To guarantee that one byte is removed in padding mode when the number of blocks is calculated.
 		size_t paddingAdjustByte = cipher->getPaddingMode() ? 1 : 0;
+		// Nothing buffered and nothing supplied: do not let the subtraction wrap around
+		if (ulEncryptedDataLen + remainingSize < paddingAdjustByte) paddingAdjustByte = 0;
 		int nrOfBlocks = (ulEncryptedDataLen + remainingSize - paddingAdjustByte) / blockSize;
 		maxSize = nrOfBlocks * blockSize;
 	}
@@ -3552,6 +3554,8 @@ static CK_RV SymDecryptFinal(Session* session, CK_BYTE_PTR pDecryptedData, CK_UL
 		}
 		// It is at least one padding byte. If no padding the all remains will be returned.
 		size_t paddingAdjustByte = cipher->getPaddingMode() ? 1 : 0;
+		// Nothing buffered: do not let the subtraction wrap around
+		if (remainingSize < paddingAdjustByte) paddingAdjustByte = 0;
 		size = remainingSize - paddingAdjustByte;
 	}
 
